@@ -5,6 +5,7 @@ import (
 	"reflect"
 
 	"verif/gen"
+	"verif/ref"
 	"verif/harness"
 	"verif/schema"
 	"verif/zoo"
@@ -242,6 +243,27 @@ var encSections = []corpusSection{
 		v := gen.NewValue(r, s, cfg)
 		// make sure the flipped level is reached by at least one element
 		return &corpusCase{S: s, V: v, Class: "twins", Tags: []string{fmt.Sprintf("twin:depth=%d:flip=%d", depth, flipAt)}}
+	}},
+	{"defaults", len(c10Zoo) * 8, func(r *gen.Rand, i int) *corpusCase {
+		// types with declared defaults, optional fields driven to their defaults / zero / specials;
+		// in every other case the tail of the top-level struct is at its defaults (nothing is
+		// emitted after the last field that differs)
+		s := gen.Zoo(c10Zoo[i/8])
+		cfg := gen.DefaultValCfg()
+		cfg.MaxDepth = 1 + i%3
+		v := gen.NewValue(r, s, cfg)
+		driveDefaults(r, s, v.Elem(), 0)
+		if i%2 == 1 {
+			if d := ref.Defaults(s); d.IsValid() {
+				from := r.Intn(len(s.Fields) + 1)
+				for k, f := range s.Fields {
+					if k >= from && f.Req == schema.Optional && !f.T.Ptr && (f.T.IsScalar() || f.T.K == schema.String) {
+						v.Elem().Field(f.Index).Set(d.Field(f.Index))
+					}
+				}
+			}
+		}
+		return &corpusCase{S: s, V: v, Class: "defaults", Tags: []string{"defaults:" + s.Name}}
 	}},
 	{"zoo", len(zoo.Valid) * 6, func(r *gen.Rand, i int) *corpusCase {
 		z := zoo.Valid[i/6]
